@@ -72,9 +72,34 @@ func gsxFocus(c *linter.Checker) {
 }
 
 // gsxMakeInput creates the lazy input matching the checker's walker.
-func gsxMakeInput(c *linter.Checker) *gsxInput {
+func gsxMakeInput(c *linter.Checker) *gsxInput { return gsxMakeInputNamed(c, "") }
+
+// gsxMakeInputNamed: a second, independent input gets its own name prefix.
+func gsxMakeInputNamed(c *linter.Checker, prefix string) *gsxInput {
 	in := &gsxInput{}
 	k := gsxrt.Bound("K", 3)
+	if prefix != "" {
+		gsxrt.Lazy(prefix+"fn", 1, &in.fn)
+		switch gsxWalkerKind(c) {
+		case gsxWalkPkg + "exprWalker", gsxWalkPkg + "localExprWalker", gsxWalkPkg + "typeExprWalker":
+			gsxrt.Lazy(prefix, k, &in.expr)
+		case gsxWalkPkg + "stmtWalker":
+			gsxrt.Lazy(prefix, k, &in.stmt)
+		case gsxWalkPkg + "stmtListWalker":
+			gsxrt.Lazy(prefix, k, &in.blk)
+		case gsxWalkPkg + "funcDeclWalker":
+			gsxrt.Lazy(prefix, k, &in.decl)
+		case gsxWalkPkg + "localDefWalker":
+			gsxrt.Lazy(prefix, k, &in.id)
+			gsxrt.Lazy(prefix+"init", k, &in.init)
+			in.namekind = gsxrt.IntRange(prefix+"namekind", 0, 2)
+		case gsxWalkPkg + "commentWalker", gsxWalkPkg + "localCommentWalker", gsxWalkPkg + "docCommentWalker":
+			gsxrt.Lazy(prefix, k, &in.cg)
+		default:
+			gsxrt.Lazy(prefix+"file", k, &in.file)
+		}
+		return in
+	}
 	gsxrt.Lazy("fn", 1, &in.fn)
 	switch gsxWalkerKind(c) {
 	case gsxWalkPkg + "exprWalker", gsxWalkPkg + "localExprWalker", gsxWalkPkg + "typeExprWalker":
